@@ -21,6 +21,7 @@ namespace Demeter.Core
 /-- Python exception classes the bar loop can meet -/
 inductive PyErr
   | typeError | valueError | indexError | keyError | demeterError
+  | diverges     -- not an exception: the call does not return (a `notify` hook that answers every delivery with a new accepted operation)
 deriving DecidableEq, Repr, Inhabited
 
 def PyErr.name : PyErr → String
@@ -29,6 +30,7 @@ def PyErr.name : PyErr → String
   | .indexError => "IndexError"
   | .keyError => "KeyError"
   | .demeterError => "DemeterError"
+  | .diverges => "(does not return)"
 
 /-- `to_minute(time)`: drop the seconds -/
 def toMinute (s : Int) : Int := s - s % Gen.coreMinuteSec
